@@ -59,6 +59,7 @@ Definition op_slot (o : op) : option (oid * fname) :=
   | Probe x => Some (x, 0)
   | AddTrait x _ => Some (x, TA)
   | DelCont x f => Some (x, f)
+  | SpliceCont c f _ _ _ _ => Some (c, f)
   end.
 
 Definition classify (t : traits) (hb ha : heap) (o : op) : chg :=
@@ -79,6 +80,7 @@ Definition classify (t : traits) (hb ha : heap) (o : op) : chg :=
                   end in
       if same then NoChange else Exact
   | Splice c f _ _ _ => if list_eqb (hb c f) (ha c f) then AtMost else Exact
+  | SpliceCont _ _ _ _ _ _ => Exact              (* a new list object is stored: always a change *)
   | Probe _ => Exact
   end.
 
@@ -90,7 +92,9 @@ Definition call_ok (hb ha : heap) (o : op) (x : oid) (f : fname) (c : call) : bo
   let '(_, obj, name, removed, added) := c in
   Nat.eqb obj x && Nat.eqb name f &&
   match o with
-  | Splice _ _ _ _ _ => perm_eqb (ha x f ++ removed) (hb x f ++ added)   (* a faithful delta *)
+  | Splice _ _ _ _ _ | SpliceCont _ _ _ _ _ _ =>
+      perm_eqb (ha x f ++ removed) (hb x f ++ added)                       (* a faithful delta: the payload objects
+                                                                              are the objects removed / now stored *)
   | Probe _ | AddTrait _ _ => true                                       (* integer / name values are not links *)
   | _ => perm_eqb removed (hb x f) && perm_eqb added (ha x f)            (* old and new value *)
   end.
